@@ -189,6 +189,8 @@ def string_failures(V, tag, b=None):
 def oracle_C01(ctx, i):
     I, meta = ctx.I[i], ctx.metas[i]
     out = []
+    if I.get("shift_same", "true").endswith("panic"):
+        out += shift_failures(I)
     op = meta.get("op")
     for k, v in I.items():
         if op == "build" and not k.startswith("rt."):
@@ -664,9 +666,16 @@ def c09_view(V, kind, b, out, tag, base=0):
         if "data" in V: chk_slice(V["data"], b, base, b, out, tag + "data")
 
 
+def shift_failures(I):
+    v = I.get("shift_same")
+    if v is not None and v != "true":
+        return [f"the result depends on the address of the input slice: at an offset of {v.split(':')[1]} bytes from 8-byte alignment `{v.split(':', 2)[2]}` differs"]
+    return []
+
+
 def oracle_C09(ctx, i):
     I, meta = ctx.I[i], ctx.metas[i]
-    out = []
+    out = shift_failures(I)
     for p, kind, b in view_prefixes(meta):
         r = I.get(p + "res")
         if r == "ok":
@@ -872,8 +881,10 @@ def oracle_C12(ctx, i):
                             if c != want: out.append(f"{p}{what}<{k}> on a {want_var} packet: {c}, expected {want}")
         elif r.startswith("err:"):
             t = V.get(f"typed.{want_var}")
-            if want_var != "unknown" and t is not None and t != r:
+            if t is not None and t != r:
                 out.append(f"{p}generic parser says {r} but {want_var}::parse says {t}")
+        if want_var == "unknown" and r == "ok" and V.get("typed.unknown") not in (None, "ok"):
+            out.append(f"{p}generic parser accepted but Unknown::parse says {V.get('typed.unknown')}")
     return out
 
 
